@@ -112,16 +112,16 @@ theorem wfs_wf (lo hi : Option K) (t : Tree K E) (h : WFS lo hi t) (hne : nebT t
   exact wfs_wf_aux.1 lo hi t h hne
 
 /-- C8: `spill` does not change the contents: the pieces a node is written as concatenate to it -/
-theorem spillT_flatten (p : Params) (pagesize hdr leafHdr branchHdr bmSize : Nat) (key : Bytes) (t : Tree Bytes Ent) :
-    ((spillT p pagesize hdr leafHdr branchHdr bmSize key t).map (fun e => e.2.flatten)).flatten = t.flatten := by
-  exact spillT_flatten_aux p pagesize hdr leafHdr branchHdr bmSize key t
+theorem spillT_flatten (p : Params) (pagesize hdr leafHdr branchHdr : Nat) (esz : Bytes × E → Nat) (key : Bytes) (t : Tree Bytes E) :
+    ((spillT p pagesize hdr leafHdr branchHdr esz key t).map (fun e => e.2.flatten)).flatten = t.flatten := by
+  exact spillT_flatten_aux p pagesize hdr leafHdr branchHdr esz key t
 
-theorem spillRoot_flatten (p : Params) (pagesize hdr leafHdr branchHdr bmSize fuel : Nat) (t : Tree Bytes Ent) :
-    (spillRoot p pagesize hdr leafHdr branchHdr bmSize fuel t).flatten = t.flatten := by
+theorem spillRoot_flatten (p : Params) (pagesize hdr leafHdr branchHdr : Nat) (esz : Bytes × E → Nat) (fuel : Nat) (t : Tree Bytes E) :
+    (spillRoot p pagesize hdr leafHdr branchHdr esz fuel t).flatten = t.flatten := by
   induction fuel generalizing t with
   | zero => rfl
   | succ fuel ih =>
-    have hs := spillT_flatten p pagesize hdr leafHdr branchHdr bmSize [] t
+    have hs := spillT_flatten p pagesize hdr leafHdr branchHdr esz [] t
     simp only [spillRoot]
     split
     · rfl
